@@ -618,7 +618,7 @@ impl<T: ObjectStore> ObjectStore for EncryptedStore<T> {
     }
 
     async fn get_opts(&self, location: &Path, options: GetOptions) -> Result<GetResult> {
-        let mut retried = false;
+        let mut retries = 0;
         loop {
             let meta = self.inner.get_meta(location).await?;
             self.verify_metadata(location, &meta)?;
@@ -684,10 +684,13 @@ impl<T: ObjectStore> ObjectStore for EncryptedStore<T> {
                     // The cached pointer — generational or legacy — may be
                     // stale after a concurrent overwrite: the generation was
                     // replaced and reclaimed, or the legacy payload was
-                    // migrated away. Re-resolve once.
-                    if !retried {
-                        retried = true;
-                        self.inner.refresh_meta(location).await?;
+                    // migrated away. Re-resolve and follow the commit point
+                    // while it keeps moving (see `pointer_moved`).
+                    if self
+                        .inner
+                        .pointer_moved(location, meta.generation.as_deref(), &mut retries)
+                        .await?
+                    {
                         continue;
                     }
                     return Err(Error::NotFound {
@@ -741,7 +744,7 @@ impl<T: ObjectStore> ObjectStore for EncryptedStore<T> {
             return Ok(Vec::new());
         }
 
-        let mut retried = false;
+        let mut retries = 0;
         'retry: loop {
             let meta = self.inner.get_meta(location).await?;
             self.verify_metadata(location, &meta)?;
@@ -778,9 +781,15 @@ impl<T: ObjectStore> ObjectStore for EncryptedStore<T> {
                     {
                         Ok(data) => data,
                         Err(Error::NotFound { source, .. }) => {
-                            if !retried {
-                                retried = true;
-                                self.inner.refresh_meta(location).await?;
+                            if self
+                                .inner
+                                .pointer_moved(
+                                    location,
+                                    meta.generation.as_deref(),
+                                    &mut retries,
+                                )
+                                .await?
+                            {
                                 continue 'retry;
                             }
                             return Err(Error::NotFound {
